@@ -165,6 +165,9 @@ size_t total_allocs();
 size_t peak_live_threads();
 // happens-before clock of the calling thread (for oracles that need it)
 void get_clock(VC& out);
+// attach a tag to the run; tags are appended to the detail of a violation ("{tags: a,b}") so that known
+// findings can be keyed on a precondition that the harness observed at run time
+void tag(const char* name);
 // a harness level nondeterministic choice taken from the run's decision stream
 uint64_t choose(uint64_t n);
 // tell the scheduler that the calling thread cannot make progress right now
